@@ -2,7 +2,7 @@
     Model/Session.v, the histories the harness ran against the real limiter,
     handleLogin and Auth, and compares the projected observables step by
     step. *)
-From AGH Require Import Base.Run Model.RateLimit Model.Session Model.SessionConc Model.LoginConc.
+From AGH Require Import Base.Run Model.RateLimit Model.Session Model.SessionConc Model.LoginConc Model.LimiterLife.
 From stdpp Require Import gmap.
 Local Open Scope Z_scope.
 
@@ -72,9 +72,12 @@ Inductive case :=
   | CLogin (max : N) (ttl block : Z) (tol : Z) (steps : list login_step)
   | CSess (dict : list bytes) (steps : list (sess_op * (stable * stable)))
   (* the real initUsers with [auth_attempts] / [block_auth_min] set, then a
-     login history through handleLogin with the Auth it returned.  Observed:
+     login history through handleLogin with the Auth it returned.  Round 8:
+     [first_run] = initUsers ran with an EMPTY user list and the accounts were
+     added afterwards to the same object by the real addUser (a fresh
+     installation; [init_limiter true]: the object keeps the limiter).  Observed:
      [Auth.rateLimiter != nil] and its blockDur / maxAttempts fields. *)
-  | CInitLogin (attempts block_min : Z) (obs_present : bool) (obs_block : Z) (obs_max : N) (tol : Z)
+  | CInitLogin (first_run : bool) (attempts block_min : Z) (obs_present : bool) (obs_block : Z) (obs_max : N) (tol : Z)
                (steps : list login_step)
   (* round 5: requests run concurrently against one Auth.  [pre]: sequential
      steps that build the start state (as in [CSess]); [evs]: requests
@@ -160,8 +163,8 @@ Fixpoint login_replay_opt (c : option rl_conf) (tol : Z) (s : rl_state) (ns : N)
   end.
 
 (** initUsers as observed against [mk_limiter]. *)
-Definition init_ok (attempts block_min : Z) (present : bool) (block : Z) (max : N) : bool :=
-  match mk_limiter {| ac_attempts := attempts; ac_block_min := block_min |} with
+Definition init_ok (first_run : bool) (attempts block_min : Z) (present : bool) (block : Z) (max : N) : bool :=
+  match init_limiter true {| ac_attempts := attempts; ac_block_min := block_min |} (negb first_run) with
   | Some c => present && (rl_block c =? block) && (rl_max c =? max)%N
   | None => negb present
   end.
@@ -408,8 +411,8 @@ Definition first_bad (c : case) : Z :=
   | CLogin max ttl block tol steps =>
       login_replay {| rl_ttl := ttl; rl_block := block; rl_max := max |} tol ∅ 0%N 1 steps
   | CSess dict steps => sess_replay dict s_init 1 steps
-  | CInitLogin att blk present oblock omax tol steps =>
-      if init_ok att blk present oblock omax
+  | CInitLogin fr att blk present oblock omax tol steps =>
+      if init_ok fr att blk present oblock omax
       then login_replay_opt (mk_limiter {| ac_attempts := att; ac_block_min := blk |}) tol ∅ 0%N 1 steps
       else -1
   | CConc dict ttl pre evs res post => conc_first_bad dict ttl pre evs res post
@@ -468,7 +471,7 @@ Definition explain (c : case) : Z * (ltable * list (Z * Z) * (list (bytes * (byt
   | CSess dict steps =>
       let st := sess_state dict s_init (Z.to_nat i) steps in
       (i, ([], [], (dump_s (ss_mem st), dump_s (ss_disk st))))
-  | CInitLogin att blk _ _ _ _ steps =>
+  | CInitLogin _ att blk _ _ _ _ steps =>
       (* what the model builds: (block, max) as a one-row table under the key "limiter" / "none" *)
       let lim := mk_limiter {| ac_attempts := att; ac_block_min := blk |} in
       (i, (match lim with
